@@ -89,7 +89,9 @@ def run(ctx):
 
     # ---- R3 zero-share / threshold-0 refusal --------------------------------------------------------------
     fs = Q.facts_of_variant(e2, ret2, 0) or set()
-    nonempty_in = any(f[0].op == "iter_empty" and f[1:] == ("eq", 0) for f in fs)
+    nonempty_in = any(f[0].op == "iter_empty" and f[1:] == ("eq", 0) for f in fs) or \
+        any(f[0].op == "eq" and f[1:] == ("eq", 0) and f[0].args[1].op == "int" and f[0].args[1].args[0] == 0 and
+            f[0].args[0].op in ("len", "len_iter") and Q.path_of(f[0].args[0].args[0]) == "shares" for f in fs)
     ctx.add("C16.R3", "adss::recover#no-shares-refused", nonempty_in,
             "an Ok of adss::recover must imply that the share collection was not empty", ctx.fn("adss::recover").loc)
     e3, ret3, _, _ = ctx.root("star_sharks::share_ff::interpolate")
